@@ -83,14 +83,19 @@ PROPS['C01'] = Prop(
 )
 
 PROPS['C02'] = Prop(
-    functions=[],
+    functions=['_parser:_parse_check', '_parser:ParseState.result'],
     bounded=[('bounded.lang', 'c02')],
     level='other',
-    technique='bounded stand-in (contracts for the parser are not closed yet): exhaustive small-scope enumeration of malformed rules',
-    explanation='BOUNDED: every symbol sequence up to length 6/8 that the grammar rejects, hand-picked and random junk '
-                'strings and every JSON/YAML scalar/container shape as a rule value must be rejected or deny for a '
-                'spread of credentials. No clause of C02 is proved in this revision.',
-    assumptions=['bounded only'],
+    technique='contract-based deductive verification of the single-check parser and of the parse-result test (own VC generator + z3); the tokenizer, the driver and the list form by a labelled bounded stand-in',
+    explanation='PROVED for every JSON/YAML value: _parse_check never raises and returns a fresh check object -- ! and @ '
+                'map to always-deny / always-allow, kind:match goes to the handler of its kind (extensions, then the '
+                'registry, then the default handler; the tables are reflected from the imported module), anything else '
+                '(no colon, or not a string) behaves as !; ParseState.result yields a value only when exactly one '
+                'token is left and it is an operand, ValueError otherwise. BOUNDED: every symbol sequence up to length '
+                '6/8 that the grammar rejects, hand-picked and random junk strings and every JSON/YAML scalar/container '
+                'shape as a rule value must be rejected or deny for a spread of credentials.',
+    assumptions=COMMON_ASSUME + ['rule values are JSON/YAML values, not Python objects',
+                                 's.split(":", 1) cuts at the first colon (trusted axiom, witnessed natively)'],
 )
 
 PROPS['C15'] = Prop(
